@@ -1,5 +1,7 @@
 """C19: RPC proxy - exact amounts, Core-style hash endianness, error mapping, request ids."""
+import http.client
 import json
+import socket
 
 import gen
 import chainhist
@@ -17,17 +19,31 @@ class FakeResponse:
         return self.body
 
 
+SEND_FAULTS = [lambda: BrokenPipeError(32, "Broken pipe"), lambda: ConnectionResetError(104, "Connection reset by peer"),
+               lambda: http.client.CannotSendRequest("Request-sent")]
+RECV_FAULTS = [lambda: http.client.RemoteDisconnected("Remote end closed connection without response"),
+               lambda: ConnectionResetError(104, "Connection reset by peer"), lambda: socket.timeout("timed out")]
+FAULT_KINDS = ("send-fault", "recv-fault")
+
+
 class FakeConn:
     """stands in for http.client.HTTPConnection (injected through connection=)"""
 
     def __init__(self):
         self.requests = []
         self.reply = b""
+        self.fault = None       # one-shot transport fault: ("send-fault" | "recv-fault", variant)
 
     def request(self, method, path, body, headers):
-        self.requests.append((method, path, body, headers))
+        self.requests.append((method, path, body, headers))     # what was put on the wire, delivered or not
+        if self.fault and self.fault[0] == "send-fault":
+            v, self.fault = self.fault[1], None
+            raise SEND_FAULTS[v % len(SEND_FAULTS)]()
 
     def getresponse(self):
+        if self.fault and self.fault[0] == "recv-fault":
+            v, self.fault = self.fault[1], None
+            raise RECV_FAULTS[v % len(RECV_FAULTS)]()
         return FakeResponse(self.reply)
 
     def close(self):
@@ -74,6 +90,9 @@ def drive(tier):
              # non-null but falsy error members, with a result present: still error replies
              ("error-nondict-emptydict", 0), ("error-nondict-zero", 0), ("error-nondict-false", 0),
              ("error-nondict-emptystring", 0), ("error-nondict-emptylist", 0), ("non-json-empty", 0)]
+    # transport faults (no reply at all): the request is refused or dropped while being written, or the response cannot
+    # be read; three exception types each.  Only the ids put on the wire are judged (Rpc.tla, FaultKinds).
+    kinds += [("send-fault", v) for v in range(3)] + [("recv-fault", v) for v in range(3)]
 
     # an error object without a code right after each registered code (nothing of one reply survives into the next)
     for c in (-5, -8, -25, -28):
@@ -112,12 +131,15 @@ def drive(tier):
                recv_amount_texts=(), recv_hash_hex=(), recv_objs_hex=(), getters=None):
             if kcount[0] % 5 == 2:
                 poke()
-            conn.reply = reply_for(kind, code, result_json)
+            conn.reply = reply_for("result" if kind in FAULT_KINDS else kind, code, result_json)
+            conn.fault = (kind, code) if kind in FAULT_KINDS else None
             n0 = len(conn.requests)
             k, v = call(fn)
             out = {"k": "ret"} if k == "ret" else dict(exc_info(v), k="exc")
             body = conn.requests[-1][2] if len(conn.requests) > n0 else None
             out["id"] = -1
+            out["ids"] = [int(raw_tokens(q[2])["id"][1]) for q in conn.requests[n0:]]      # every request of this call, failed or retried
+            conn.fault = None
             out["sent_amounts"], out["sent_hashes"], out["sent_objs"] = [], [], []
             out["recv_amounts"], out["recv_hashes"], out["recv_objs"] = [], [], []
             if body is not None:
